@@ -141,3 +141,98 @@ def t_eri_ssss_closed():
 
 
 TESTS = [t_boys, t_md_overlap, t_nuclear_quad, t_eri_erf, t_eri_symmetry, t_eri_ssss_closed]
+
+
+def t_evalref_mpdiff():
+    """polynomial-differentiation reference vs mpmath numerical differentiation of the defining expression."""
+    from mc.ref.evalref import BasisEvaluator
+    from mc.ref.shells import contraction_norms, prim_norm, solid_harmonic_poly, sph_labels, parse_label, sph_transform, cart_comps
+
+    sh = RefShell(2, (0.2, -0.3, 0.1), (0.7, 2.1), [[0.6, -0.2], [0.5, 0.9]], "spherical")
+    pt = np.array([[0.9, 0.4, -0.6]])
+    ev = BasisEvaluator([sh], pt, 4)
+    N = contraction_norms(sh)
+    U = sph_transform(2)
+    comps = cart_comps(2)
+    worst = 0
+    for order in ((0, 0, 0), (1, 0, 2), (2, 2, 0), (0, 4, 1), (3, 1, 1)):
+        v, m = ev.deriv(order)
+        for seg in (0, 1):
+            for f in (0, 3):
+                def phi(x, y, z, seg=seg, f=f):
+                    X, Y, Z = x - sh.center[0], y - sh.center[1], z - sh.center[2]
+                    tot = mpmath.mpf(0)
+                    for k, a in enumerate(sh.exps):
+                        g = mpmath.exp(-a * (X * X + Y * Y + Z * Z))
+                        for c, (i, j, l) in enumerate(comps):
+                            n = float(prim_norm(np.array([a]), (i, j, l))[0])
+                            tot += U[f, c] * float(N[seg]) * sh.coeffs[k][seg] * n * X ** i * Y ** j * Z ** l * g
+                    return tot
+                with mpmath.workdps(40):
+                    d = mpmath.diff(phi, (pt[0, 0], pt[0, 1], pt[0, 2]), order)
+                worst = max(worst, abs(float(d) - v[seg * 5 + f, 0]) / (m[seg * 5 + f, 0] + 1e-300))
+    ok("basis-derivative reference == mpmath numerical differentiation (d shell, spherical, orders <= 4)", worst < 1e-10,
+       "worst rel %.1e" % worst)
+
+
+def t_rep():
+    """representation matrices: orthogonal on spherical shells, metric-preserving on Cartesian shells,
+    multiplicative, and consistent with direct evaluation of rotated functions."""
+    from mc.ref import rep
+    from mc.ref.evalref import BasisEvaluator
+    from mc.ref.shells import cart_metric
+    from mc.core import hvec
+
+    R1 = rep.rotation_from_seed("st-r1", hvec)
+    R2 = rep.rotation_from_seed("st-r2", hvec, improper=True)
+    bad = 0
+    for l in range(5):
+        for t in ("cartesian", "spherical"):
+            sh = RefShell(l, (0.0, 0.0, 0.0), (0.9,), [[1.0]], t)
+            D1, D2, D12 = rep.shell_rep(sh, R1), rep.shell_rep(sh, R2), rep.shell_rep(sh, R1 @ R2)
+            if not np.allclose(D1 @ D2, D12, atol=1e-12):
+                bad += 1
+            if t == "spherical" and not np.allclose(D1 @ D1.T, np.eye(2 * l + 1), atol=1e-12):
+                bad += 1
+            if t == "cartesian":
+                G = cart_metric(sh.comps)
+                if not np.allclose(D1 @ G @ D1.T, G, atol=1e-12):
+                    bad += 1
+            # phi'(R u) = D phi(u) with the same shell (centre at origin is a fixed point)
+            u = np.array([[0.3, -0.7, 0.5], [1.1, 0.2, -0.4]])
+            a = BasisEvaluator([sh], u @ R1.T, 0).deriv((0, 0, 0))[0]
+            b = D1 @ BasisEvaluator([sh], u, 0).deriv((0, 0, 0))[0]
+            if not np.allclose(a, b, atol=1e-12):
+                bad += 1
+    ok("shell representation matrices: multiplicative, orthogonal / metric preserving, reproduce rotated values", bad == 0)
+
+
+def t_writer():
+    """writer -> independent tokenizer round trip"""
+    from mc.ref import writer as W
+    from mc.props import C18
+
+    bad = 0
+    for es, cs in C18.STYLES:
+        basis = C18.abstract_basis({"elems": 3, "shells": 5, "K": 10, "ncol": 6}, es, cs)
+        model = W.model_columns(basis)
+        nums_model = []
+        for elem, shells in basis:
+            for letters, exps, rows in shells:
+                pass
+        for text in (W.write_nwchem(basis, "many", "comment", True), W.write_gbs(basis, "none", "blank", False)):
+            toks = W.tokenize_numbers(text)
+            want = sum(len(ex) * (1 + len(rows[0])) for _, shells in basis for _, ex, rows in shells)
+            if text.startswith("****") or "     0\n" in text:
+                # gaussian94 repeats the exponents once per generalized column
+                want = sum(len(ex) * (2 * len(rows[0]) if len(letters) == 1 else 1 + len(rows[0]))
+                           for _, shells in basis for letters, ex, rows in shells)
+            if len(toks) != want:
+                bad += 1
+        for v in ("0.1234500000E+02", "-0.5000000000D-03", "12.3450000"):
+            if abs(W.value(W.fmt_number(W.value(v), "E")) - W.value(v)) > 1e-9 * abs(W.value(v)):
+                bad += 1
+    ok("basis-file writer: number formats and token counts consistent with the abstract basis", bad == 0)
+
+
+TESTS += [t_evalref_mpdiff, t_rep, t_writer]
